@@ -4,6 +4,7 @@ import (
 	"bytes"
 	"encoding/json"
 	"fmt"
+	"os"
 	"sort"
 	"strings"
 	"time"
@@ -531,7 +532,9 @@ func c10Shard(c *drv.Ctx, shard, checks int) (*drv.Stats, *drv.Violation, error)
 		if rapid.IntRange(0, 2).Draw(t, "mutate?") == 0 {
 			cs = c10Mutate(t, cs)
 		}
-		key := drv.Hash(cs.Text, fmt.Sprint(cs.Mutated))
+		// the inputs are part of the case: the same text with inputs that do not separate
+		// the two meanings is a different (passing) case
+		key := drv.Hash(cs.Text, fmt.Sprint(cs.Mutated), strings.Join(cs.Inputs, "\x00"))
 		what, known := guard.Known(key)
 		if !known && guard.Expired() {
 			t.Skip("shrink budget exhausted")
@@ -655,6 +658,24 @@ func c10Escapes(c *drv.Ctx) {
 	c.Stats.Extra["escape_table_exhaustive"] = true
 }
 
+// FuzzSyntaxOracle is the C10 oracle for arbitrary text, used by the native fuzz target. The
+// open known finding F2 (empty literal / class) is excluded inside the target so that a
+// campaign is not ended in seconds by a known shallow defect.
+func FuzzSyntaxOracle(text string) (what string, excluded bool) {
+	cs := synCase{Text: text, Mutated: true}
+	return judgeSyntax(&cs, true)
+}
+
+// FrontEndFuzzSeeds are small valid grammars and hostile constants for the fuzz corpus.
+func FrontEndFuzzSeeds() []string {
+	return []string{
+		"package g\ntype G Peg {}\nS <- 'a' / \"b\" / [c-d] / [[e]] / [^f] / . / &'x' !'y' <'z'>* { } &{true} !{ } T? T+\nT <- '\\n' '\\0x41' '\\101' '\\7'\n",
+		"package g\nimport m \"math\"\nimport (\n\t\"fmt\"\n)\ntype G Peg { x int }\n# c\n// c\nS \u2190 ()\n",
+		"package A type A Peg{}e<-e<-{}",
+		"", "\x00", "\xff", "package", "package g\ntype G Peg {}\n", "S <- ''", "S <- []", "S <- [[]]",
+	}
+}
+
 func init() {
 	drv.RegisterShard("c10", c10Shard)
 	drv.RegisterReplay("syntax-text", func(c *drv.Ctx, raw json.RawMessage) (string, error) {
@@ -682,7 +703,40 @@ func init() {
 			if len(c.Violations) > 0 {
 				return nil
 			}
-			return drv.RunSharded(c, "c10", c.Pick(12000, 240000), c.Pick(8, 16), 30*time.Minute)
+			if err := drv.RunSharded(c, "c10", c.Pick(12000, 240000), c.Pick(8, 16), 30*time.Minute); err != nil || len(c.Violations) > 0 || !c.Thorough() {
+				return err
+			}
+			return c10NativeFuzz(c)
 		})
 	_ = lab.V0
+}
+
+// c10NativeFuzz runs the coverage-guided campaign on the front end (thorough tier).
+func c10NativeFuzz(c *drv.Ctx) error {
+	dir := os.Getenv("VERIF_FUZZFE_DIR")
+	if dir == "" {
+		c.Notes = append(c.Notes, "native fuzz target not rendered (run through ./check)")
+		return nil
+	}
+	res, err := runNativeFuzz(c, dir, "FuzzFrontEnd", 120*time.Second, "VERIF_REPO="+c.Repo)
+	if err != nil {
+		c.Notes = append(c.Notes, "native fuzzing did not run: "+firstLine(err.Error()))
+		return nil
+	}
+	c.Stats.Extra["native_fuzz_execs"] = res.Execs
+	c.Stats.Extra["native_fuzz_seconds"] = res.Seconds
+	c.Stats.Evaluations += res.Execs
+	if res.Failed {
+		text := ""
+		if len(res.Args) > 0 {
+			text = res.Args[0]
+		}
+		cs := &synCase{Text: text, Mutated: true}
+		what, _ := judgeSyntax(cs, true)
+		if what == "" {
+			what = "native fuzzing reported a failure that does not reproduce in process:\n" + tail(res.Output, 1200)
+		}
+		c.AddViolation(drv.Violation{Property: "C10", Kind: "syntax-text", What: what + "\n--- text (found by go test -fuzz) ---\n" + text, Case: cs})
+	}
+	return nil
 }
